@@ -407,9 +407,12 @@ def scalar_check(kind, case, rec):
         C = C + (C >= pos)
     mesh = fem.Mesh(P, C, grid.cell_type)
     region = (fem.RegionQuad if dim == 2 else fem.RegionHexahedron)(mesh)
-    T = fem.Field(region, dim=1)
-    fc = fem.FieldContainer([T])
     va, vb = case["values"]
+    # two of three cases start from a uniform non-zero field (an initial temperature): unknowns that nothing prescribes and no cell
+    # touches (points without cells) keep that value, whatever the boundaries say elsewhere
+    T0 = 0.0 if case["seed"] % 3 == 0 else round(1.3 + 0.5 * va, 3)
+    T = fem.Field(region, dim=1, values=T0)
+    fc = fem.FieldContainer([T])
     bounds = dict(left=fem.Boundary(T, fx=0.0, value=va), right=fem.Boundary(T, fx=1.0, value=vb))
     dof0, dof1 = fem.dof.partition(fc, bounds)
     ext0 = fem.dof.apply(fc, bounds, dof0)
@@ -434,8 +437,11 @@ def scalar_check(kind, case, rec):
     rec.nontrivial = case["norph"] >= 1 and va != vb
     rec.label(f"cell-less-points={case['norph']}")
     rec.require("success", bool(res.success))
-    rec.close("prescribed-values-kept", max([abs(Tv[i] - v) for i, v in pres.items()] + [0.0]), 0.0)
-    rec.close("cell-less-points-untouched", float(np.abs(Tv[~attached]).max()) if (~attached).any() else 0.0, 0.0)
+    # (u0 + (ext0 - u0) in floating point: exact from a zero start field, up to one unit in the last place otherwise)
+    rec.close("prescribed-values-kept", max([abs(Tv[i] - v) for i, v in pres.items()] + [0.0]), 4 * np.finfo(float).eps * max(1.0, abs(va), abs(vb), abs(T0)) if T0 else 0.0)
+    rec.close("cell-less-points-untouched", float(np.abs(Tv[~attached] - T0).max()) if (~attached).any() else 0.0, 0.0, {"start value": T0})
+    if T0:
+        rec.label("non-zero-start-field")
     H = res.x.extract(grad=True, add_identity=False)
     r = np.asarray(fem.IntegralForm([H[0]], res.x, region.dV).assemble().toarray()).ravel()
     reaction = float(np.linalg.norm(r[list(pres)]))
